@@ -400,7 +400,11 @@ def run(res):
               "prefixes CPython can create; maximal ones) + random tables up to 9 user classes (plausible orders, arbitrary "
               "orders, repeated bases) + random sequence lists for the bare merge (repeats inside sequences, empty sequences, "
               "SINGLETON elements). End to end: one generated program per table (source classes or stub classes of a module "
-              "foo.pyi), every class body defines a random subset of {a, b, m()} whose type names the defining class. A case is "
+              "foo.pyi), every class body defines a random subset of {a, b, m()} whose type names the defining class. "
+              "Source programs additionally end with a HISTORY: reads (C.a, C().a, C().m()) interleaved with class-attribute "
+              "assignments (fresh marker type each) and deletions on classes earlier than / equal to / later than the current "
+              "definition in the reader's MRO, then re-reads; each read is compared with CPython at that point (violation only if "
+              "the run-time type is excluded by the inferred type). A case is "
               "non-trivial if some class has >=2 bases; distinct by (mode, table, attrs).") % (5 if thorough else 4)
   res.assumptions = [
       "CPython's pmerge/check_duplicates/mro_implementation transcribed from Objects/typeobject.c (3.12) by hand; validated "
